@@ -123,7 +123,11 @@ type Client struct {
 	Tainted  string
 	Failed   string
 	pendingD []pendingDangling
-	ivFail   map[string]string
+	// directSince: idle-cut index at which Direct[rid] last changed
+	directSince  map[string]int
+	UnsubReasons map[string]string
+	ErrSeen      map[string]bool
+	ivFail       map[string]string
 	// F3rids: rids on which an unsubscribe request was accepted on a provisional count
 	F3rids      map[string]bool
 	failedProps map[string]bool
@@ -135,7 +139,7 @@ type Client struct {
 
 func (s *Sim) newClient() *Client {
 	c := &Client{s: s, Idx: len(s.Clients), State: "new", Proto: protoLegacy, Reqs: map[uint64]*CReq{},
-		F3rids: map[string]bool{}, ivFail: map[string]string{}, getSet: map[string]int{}, DeletedSeen: map[string]bool{}, Direct: map[string]int{}, Fuzzy: map[string]bool{}, Cache: map[string]*CRes{}, Revoked: map[string]int{}, CIdx: -1}
+		F3rids: map[string]bool{}, directSince: map[string]int{}, UnsubReasons: map[string]string{}, ErrSeen: map[string]bool{}, ivFail: map[string]string{}, getSet: map[string]int{}, DeletedSeen: map[string]bool{}, Direct: map[string]int{}, Fuzzy: map[string]bool{}, Cache: map[string]*CRes{}, Revoked: map[string]int{}, CIdx: -1}
 	c.Name = fmt.Sprintf("k%d", c.Idx)
 	s.Clients = append(s.Clients, c)
 	return c
@@ -408,6 +412,7 @@ func (c *Client) addSet(rs *resourceSet, f *Frame) []string {
 	for _, rid := range sortedKeys(rs.Errors) {
 		var e ErrObj
 		json.Unmarshal(rs.Errors[rid], &e)
+		c.ErrSeen[rid] = true
 		if old := c.Cache[rid]; old != nil && old.Kind != 'e' {
 			// an error entry (e.g. the access error of a resource response) does
 			// not replace data the client already holds through another path
@@ -677,6 +682,7 @@ func (c *Client) onResponse(f *Frame) {
 			json.Unmarshal(f.Result, &rs)
 			c.addSet(&rs, f)
 			c.Direct[r.RID]++
+			c.directSince[r.RID] = s.Cut
 			s.oracleOnHandOver(c, r.RID, f, r)
 		}
 	case "get":
@@ -703,6 +709,7 @@ func (c *Client) onResponse(f *Frame) {
 				cnt = *r.Count
 			}
 			c.Direct[r.RID] -= cnt
+			c.directSince[r.RID] = s.Cut
 			if c.Direct[r.RID] < 0 {
 				c.Direct[r.RID] = 0
 			}
@@ -731,6 +738,7 @@ func (c *Client) onResponse(f *Frame) {
 					}
 				} else {
 					c.Direct[rid]++
+					c.directSince[rid] = s.Cut
 					s.oracleOnHandOver(c, rid, f, r)
 				}
 			}
@@ -768,6 +776,7 @@ func (c *Client) onEvent(f *Frame) {
 	if name == "unsubscribe" {
 		s.oracleUnsubEvent(c, rid, f)
 		c.Direct[rid] = 0
+		c.directSince[rid] = s.Cut
 		c.Revoked[rid] = f.Step
 		// known finding F-3b: an unsubscribe event also removes the provisional
 		// counts of requests still in flight for the same rid
